@@ -281,7 +281,8 @@ def small_world(rng, schema, opts=None):
     flavour, flags = worldgen.pick_flavour(rng)
     if opts.get("flavour"):
         flavour, flags = opts["flavour"]
-    wb = worldgen.full_backend(schema, b, flavour, flags, rng, shuffle=False)
+    # the backend lists its objects in an order of its own most of the time (lmd sorts what it stores by primary key)
+    wb = worldgen.full_backend(schema, b, flavour, flags, rng, shuffle=opts.get("shuffle", rng.random() < 0.7))
     return wb, flags
 
 
